@@ -113,6 +113,8 @@ where
         memo_ingredient_index: MemoIngredientIndex,
     ) -> Option<&'db Memo<C>> {
         let database_key_index = self.database_key_index(id);
+        #[cfg(feature = "verif")]
+        crate::verif::failpoint(crate::verif::Site::FetchBeforeClaim);
         // Try to claim this query: if someone else has claimed it already, go back and start again.
         let claim_guard = match self
             .sync_table
@@ -135,6 +137,8 @@ where
             }
         };
 
+        #[cfg(feature = "verif")]
+        crate::verif::failpoint(crate::verif::Site::FetchAfterClaim);
         // Now that we've claimed the item, check again to see if there's a "hot" value.
         let opt_old_memo = self.get_memo_from_table_for(zalsa, id, memo_ingredient_index);
 
